@@ -87,7 +87,7 @@ EXPANDABLE = set(IF_PRIMS) | {'else', 'or', 'fi', 'csname', 'expandafter', 'arab
 PRIMS = ['def', 'gdef', 'newcommand', 'renewcommand', 'let', 'csname', 'endcsname', 'expandafter', 'relax',
          'else', 'or', 'fi', 'newif', 'catcode', 'makeatletter', 'makeatother', 'begingroup', 'endgroup',
          'newcounter', 'setcounter', 'addtocounter', 'stepcounter', 'arabic', 'value', 'par', 'begin', 'end', 'item',
-         'textbf', 'mbox', 'emph', '\\', '(', ')', 'global', 'newenvironment', 'pvendenvfinish', 'ifthenelse', 'whiledo', 'newboolean', 'setboolean', 'number',
+         'textbf', 'mbox', 'emph', 'marginpar', '\\', '(', ')', 'global', 'newenvironment', 'pvendenvfinish', 'ifthenelse', 'whiledo', 'newboolean', 'setboolean', 'number',
          'small', 'bfseries', 'itshape', 'large', 'newcount', 'newdimen'] + list(IF_PRIMS)
 
 UNITS = {'pt': Fraction(1), 'pc': Fraction(12), 'in': Fraction(7227, 100), 'bp': Fraction(7227, 7200), 'cm': Fraction(7227, 254),
@@ -960,6 +960,40 @@ class Interp(object):
 
     p_textbf = p_mbox = p_emph = _boxed
 
+    def p_marginpar(self, t):
+        # \marginpar[left]{right}: two arguments, each processed in a group of its own, in the order written
+        x = self._next_nonspace()
+        opt = None
+        if x is not None and x[0] == OTHER and x[1] == '[':
+            opt, depth = [], 0
+            while True:
+                y = self.next_raw()
+                if y is None:
+                    raise TeXError('file ended in an optional argument')
+                if y[0] == BG:
+                    depth += 1
+                elif y[0] == EG:
+                    depth -= 1
+                elif depth == 0 and y[0] == OTHER and y[1] == ']':
+                    break
+                opt.append(y)
+            x = self._next_nonspace()
+        if x is None or x[0] != BG:
+            raise OutOfModel('unbraced argument of %r' % (t,))
+        body = self.read_balanced()
+        if '@endarg' not in self.meaning:
+            self.meaning['@endarg'] = Prim('@endarg')
+        if '@beginarg' not in self.meaning:
+            self.meaning['@beginarg'] = Prim('@beginarg')
+        seq = []
+        if opt is not None:
+            seq += [('cs', '@beginarg')] + opt + [('cs', '@endarg')]
+        seq += [('cs', '@beginarg')] + body + [('cs', '@endarg')]
+        self.push(seq)
+
+    def p__beginarg(self, t):
+        self.begin_group('arg')
+
     def _declaration(self, t):
         # font and size declarations: no text, no group, in force until the enclosing group ends
         pass
@@ -984,6 +1018,8 @@ def _pyname(n):
         return 'rparen'
     if n == '@endarg':
         return '_endarg'
+    if n == '@beginarg':
+        return '_beginarg'
     if n.startswith('set:'):
         return 'setswitch'
     return n
